@@ -25,7 +25,7 @@ from common import NCPU, MachineryFailure
 CHUNK = 30000
 # which of the proposed repairs (fixes/C17-*.patch) the tree under test carries: selects the matching
 # transcription in DType.tla (Fixes).  Empty = /repo HEAD.  Override for experiments: C17_TREE_FIXES=large,inbase
-TREE_FIXES = {"large", "inbase", "complexop", "inplace", "tovalue"}  # /repo HEAD carries these repairs (fix: commits 6aeb2e4..36aece9)
+TREE_FIXES = {"large", "inbase", "complexop", "inplace", "tovalue", "ufuncscale"}  # /repo HEAD carries these repairs (fix: commits 6aeb2e4..36aece9)
 
 
 def _key(r):
